@@ -60,6 +60,12 @@ class Closure:
     def __init__(self, node, env): self.node, self.env = node, env
 
 
+class Variant:
+    """A value of an enum with payloads whose variant is known (e.g. RTreeNode::Parent(data) / RTreeNode::Leaf(t)): the units are run once
+    per variant, so the tag is concrete."""
+    def __init__(self, enum, variant, payload): self.enum, self.variant, self.payload = enum, variant, list(payload)
+
+
 class RangeV:
     """A `lo..hi` / `lo..=hi` value with integer bounds (possibly case distinctions of literals)."""
     def __init__(self, lo, hi, inclusive): self.lo, self.hi, self.inclusive = lo, hi, inclusive
@@ -226,6 +232,7 @@ class Interp:
         self.consts = consts or {}
         self.tolerant = False
         self.last_self = None
+        self.local_fns = {}
 
     # ---- obligations
     def oblige(self, env, kind, node, cond):
@@ -573,6 +580,10 @@ class Interp:
                 return And(v.some, self.match_pat(env, p["elems"][0], v.val, binds))
             if name in ("Ok", "Err") and isinstance(v, Res):
                 return v.ok if name == "Ok" else Not(v.ok)
+            if isinstance(v, Variant):
+                if name != v.variant: return FALSE
+                if len(p["elems"]) != len(v.payload): raise Unsupported("variant payload arity")
+                return And(*[self.match_pat(env, q, x, binds) for q, x in zip(p["elems"], v.payload)])
             raise Unsupported("tuple-struct pattern " + name)
         if k == "ppath":
             name = p["path"][-1]
@@ -755,7 +766,10 @@ class Interp:
             v = self.ev(env, s["e"])
             return UNIT if s["semi"] else v
         if k == "item":
-            return UNIT  # nested fn items are resolved on call
+            it_ = s.get("item") or {}
+            if it_.get("k") == "fn":      # a nested fn item: callable by its name inside this body
+                self.local_fns[it_["path"].split("::")[-1]] = it_
+            return UNIT
         raise Unsupported("stmt " + k)
 
     # ---- assignment
@@ -943,7 +957,7 @@ class Interp:
         con = self.ctx.contracts.get(name)
         if con is not None:
             return con(self, env, n, args)
-        fn = self.ctx.resolver(name)
+        fn = self.local_fns.get(name) or self.ctx.resolver(name)
         if fn is None: raise Unsupported("call to %s at %s" % (name, site(n)))
         self.ctx.inlined.append(name)
         return self.inline(env, fn, args)
